@@ -306,6 +306,11 @@ Fixpoint bad_cases (i : nat) (cs : list case) : list (nat * (nat * nat) * bool *
       end
   end.
 
+(** the oracle on the model's own trace of each case (it must hold wherever it holds on the
+    implementation's trace: evaluated on every executed history, see checks/c12.py) *)
+Definition model_oracle (cs : list case) : list bool :=
+  map (fun c => c12_oracle None obs0 (c_ops c) (case_trace c)) cs.
+
 (** coverage predicates, evaluated on the model side.
     1 a snapshot / remove / revert succeeded on a chain of >= 2   2 an operation was refused with the replica open
     4 close/crash followed by a successful open                    8 a mark-removed succeeded (actions returned)
@@ -503,6 +508,14 @@ Definition check_vcase (v : vcase) (ipre ipost : obs) (xs : list vrun) :=
   let '(_, _, mpre) := vic_run v (Some 0) None in
   let '(_, _, mpost) := vic_run v None None in
   map (check_vrun v ipre ipost mpre mpost) xs.
+
+(** the oracles alone, on the implementation's observations (used when the operation's calls can no
+    longer be aligned with the model's) *)
+Definition oracle_only (ipre ipost : obs) (xs : list vrun) : list bool :=
+  map (fun x => match vr_err x with
+                | None => c08_kill_ok ipre ipost (vr_open x)
+                | Some _ => c08_fail_ok ipre ipost (vr_res x) (vr_open x)
+                end) xs.
 
 (** model-only exploration: for every call index the side of a kill and, per errno, result class and side *)
 Definition vic_kill_sides (v : vcase) : list nat :=
